@@ -12,6 +12,14 @@ CHECKS = {
    "Exhaustive enumeration of stated finite families: every non-empty subset of 7 server names under all |S|! orderings, bounded ordering families for sizes 8..16, and every single-server addition/removal over prefix chains and all small sets, each against 4096 keys, on the real RendezvousHash. Complete for the families, not for all strings.",
    "keys and server names outside the enumerated families are not covered; xxhash is exercised, not modelled",
    "bounded-exhaustive input enumeration against the real function", "DESIGN.md §4 C13"),
+ "C19": (True, "seqx-input", "model_checking",
+   "Exhaustive enumeration of stated finite value families through the real encoders/decoders (verif export hooks for the unexported sortable and text-key codecs): round trip, injectivity, and key order = value order checked on adjacent elements of each value-sorted family (all pairs by transitivity), every Range/Prefix scan with bounds from 15-value families on memstore and bbolt; thorough sweeps all 2^32 float32 patterns (vectors and widened float64) and 2^33 int64 values.",
+   "int64/float64 values outside the families are reached only by the thorough sweeps; NaN excluded as the property states",
+   "bounded-exhaustive input enumeration against the real codecs + exhaustive scan-bound enumeration", "DESIGN.md §4 C19"),
+ "C20": (True, "seqx-input", "model_checking",
+   "Every vector length 1..4096 x operand offsets x 8 value families on 7 implementations (asm kernels, dispatched functions, pure-Go fallbacks via hook) against a float64 reference with a rounding bound, NaN canaries around the operands, bit-exact symmetry; bit metrics for every length through the real binary vector store incl. all pairs for length<=6; haversine over all pairs of a 37x73 lattice.",
+   "float values outside the eight families are not enumerated; AVX2/FMA CPU",
+   "bounded-exhaustive input enumeration (all lengths) against reference definitions", "DESIGN.md §4 C20"),
 }
 
 props = [json.loads(l) for l in open(os.path.join(HERE, "properties.jsonl"))]
